@@ -46,6 +46,9 @@ pub struct Conn {
     pub s2c: Pipe,
     /// Connection reset: both directions are dead, buffered data is discarded.
     pub rst: bool,
+    /// ECONNRESET has been reported to a server-side read: the kernel reports a pending
+    /// socket error once, further reads see end of stream
+    pub rst_reported: bool,
     /// The server's stream object has been dropped.
     pub server_closed: bool,
     /// The client has closed its socket (no longer reads or writes).
@@ -256,6 +259,7 @@ impl World {
             c2s: Pipe::new(cap),
             s2c: Pipe::new(cap),
             rst: false,
+            rst_reported: false,
             server_closed: false,
             client_closed: false,
             accepted: false,
@@ -289,6 +293,7 @@ impl World {
             c2s: Pipe::new(cap),
             s2c: Pipe::new(cap),
             rst: false,
+            rst_reported: false,
             server_closed: false,
             client_closed: false,
             accepted: true,
@@ -435,6 +440,10 @@ impl World {
         {
             let c = &mut self.net.conns[id];
             if c.rst {
+                if c.rst_reported {
+                    return Poll::Ready(Ok(0));
+                }
+                c.rst_reported = true;
                 return Poll::Ready(Err(io_err(ErrorKind::ConnectionReset)));
             }
             if let Some((at, kind)) = c.fail_read_at {
